@@ -6,6 +6,7 @@
 package c07
 
 import (
+	"context"
 	"encoding/json"
 	"fmt"
 	"strings"
@@ -30,6 +31,9 @@ type Case struct {
 	Universe *uni.Universe `json:"universe"`
 	Root     Root          `json:"root"`
 	Note     string        `json:"note,omitempty"`
+	// Before lists roots resolved earlier on the same resolver object (the
+	// reused-resolver pass); empty for a fresh resolver.
+	Before []Root `json:"before,omitempty"`
 }
 
 // akey is Maven's artifact identity inside one resolution: group:artifact,
@@ -131,6 +135,39 @@ func errKind(err error) string {
 // evaluate runs one resolution under the universe's step budget and checks
 // the returned graph. lc may be nil (a client is then built from u).
 func evaluate(o *ranges, u *uni.Universe, root Root, lc *resolve.LocalClient) (out outcome) {
+	return evaluateWith(o, u, root, lc, maven.NewResolver)
+}
+
+// reused is one resolver object used for many resolutions, each with its own
+// counting client (the resolver talks to its client through a switch).
+type reused struct {
+	sw  *switchClient
+	res resolve.Resolver
+}
+
+func newReused() *reused {
+	sw := &switchClient{}
+	return &reused{sw: sw, res: maven.NewResolver(sw)}
+}
+
+func (x *reused) mk(c resolve.Client) resolve.Resolver { x.sw.c = c; return x.res }
+
+type switchClient struct{ c resolve.Client }
+
+func (s *switchClient) Version(ctx context.Context, vk resolve.VersionKey) (resolve.Version, error) {
+	return s.c.Version(ctx, vk)
+}
+func (s *switchClient) Versions(ctx context.Context, pk resolve.PackageKey) ([]resolve.Version, error) {
+	return s.c.Versions(ctx, pk)
+}
+func (s *switchClient) Requirements(ctx context.Context, vk resolve.VersionKey) ([]resolve.RequirementVersion, error) {
+	return s.c.Requirements(ctx, vk)
+}
+func (s *switchClient) MatchingVersions(ctx context.Context, vk resolve.VersionKey) ([]resolve.Version, error) {
+	return s.c.MatchingVersions(ctx, vk)
+}
+
+func evaluateWith(o *ranges, u *uni.Universe, root Root, lc *resolve.LocalClient, mk func(resolve.Client) resolve.Resolver) (out outcome) {
 	out.feat = map[string]int64{}
 	defer func() {
 		if p := recover(); p != nil {
@@ -149,7 +186,7 @@ func evaluate(o *ranges, u *uni.Universe, root Root, lc *resolve.LocalClient) (o
 	rootVK := u.VK(root.Name, root.Version, resolve.Concrete)
 	var trace []string
 	tc := &uni.Counting{C: lc, Trace: &trace}
-	g, err, exhausted, calls := uni.Resolve(maven.NewResolver, tc, u.StepBudget(), rootVK)
+	g, err, exhausted, calls := uni.Resolve(mk, tc, u.StepBudget(), rootVK)
 	out.calls = calls
 	rootCalls := 0
 	for _, t := range trace {
@@ -188,6 +225,29 @@ func evaluate(o *ranges, u *uni.Universe, root Root, lc *resolve.LocalClient) (o
 	out.kind = "graph"
 	check(o, u, root, g, trace, &out)
 	return
+}
+
+func reusedPass(rc *recorder, o *ranges, u *uni.Universe, lc *resolve.LocalClient, order []int, fresh map[Root]outcome) {
+	x := newReused()
+	var before []Root
+	for _, i := range order {
+		root := Root{u.Versions[i].Name, u.Versions[i].Version}
+		out := evaluateWith(o, u, root, lc, x.mk)
+		rc.feat["reused-resolver:resolutions"]++
+		f0 := fresh[root]
+		for _, f := range out.viol {
+			if f0.has(f.class) {
+				continue // already reported for the fresh resolver
+			}
+			rc.r.Violation(f.class+":on-reused-resolver", f.what+fmt.Sprintf(" [resolver reused after %d other resolutions; a fresh resolver gives a graph without this fault]", len(before)),
+				Case{Universe: u, Root: root, Before: append([]Root(nil), before...)})
+		}
+		if out.kind != f0.kind {
+			rc.r.Violation("C07:outcome-differs:on-reused-resolver", fmt.Sprintf("resolving %s@%s gives outcome %q on a fresh resolver and %q on a resolver reused after %d resolutions", root.Name, root.Version, f0.kind, out.kind, len(before)),
+				Case{Universe: u, Root: root, Before: append([]Root(nil), before...)})
+		}
+		before = append(before, root)
+	}
 }
 
 // eff is one effective declaration met by the breadth-first replay.
@@ -816,6 +876,25 @@ func Run(r *ev.Run, replay string) {
 			r.Inconclusive("replay unreadable")
 			return
 		}
+		if len(c.Case.Before) > 0 {
+			if err := o.prepare(c.Case.Universe); err != nil {
+				r.Inconclusive(err.Error())
+				return
+			}
+			rc := &recorder{r: r, o: o, feat: map[string]int64{}}
+			lc := c.Case.Universe.Client(nil)
+			x := newReused()
+			for _, b := range c.Case.Before {
+				evaluateWith(o, c.Case.Universe, b, lc, x.mk)
+			}
+			out := evaluateWith(o, c.Case.Universe, c.Case.Root, lc, x.mk)
+			r.Eval(1)
+			for _, f := range out.viol {
+				r.Violation(f.class+":on-reused-resolver", f.what, c.Case)
+			}
+			rc.flush()
+			return
+		}
 		runCases(r, o, []Case{c.Case}, "replay_cases")
 		return
 	}
@@ -864,10 +943,16 @@ func Run(r *ev.Run, replay string) {
 					b, _ := json.Marshal(u)
 					ukey := string(b)
 					lc := u.Client(nil)
+					fresh := map[Root]outcome{}
 					for _, v := range u.Versions {
 						c := Case{Universe: u, Root: Root{v.Name, v.Version}}
-						rc.record(c, ukey, evaluate(o, u, c.Root, lc))
+						out := evaluate(o, u, c.Root, lc)
+						fresh[c.Root] = out
+						rc.record(c, ukey, out)
 					}
+					// The same roots again, in a seeded order, on ONE resolver object:
+					// what a graph obeys must not depend on what was resolved before.
+					reusedPass(rc, o, u, lc, rng.Perm(len(u.Versions)), fresh)
 				}
 			}
 		}(sh)
